@@ -380,3 +380,113 @@ def rule_base64_whole(c, prog, R, crates=("rbx_xml",)):
         else:
             c.ok(R, inst)
     c.floor(R, n, 1, "base64::encode sites in the XML writers")
+
+
+# --- writer totality --------------------------------------------------------------------------------------------------
+# explicit panic macros reachable from an encoder entry point.  (function, macro) -> the invariant that keeps the site
+# dead; the reason must be a fact another rule decides, named here.
+XML_ROOTS = r"^rbx_xml::serializer::encode_internal$|^rbx_xml::to_writer$|^rbx_xml::to_writer_default$"
+BIN_ROOTS = r"^rbx_binary::serializer::Serializer::<'db>::serialize$|^rbx_binary::to_writer$"
+WRITER_CRATES = ("rbx_xml", "rbx_binary", "rbx_types", "rbx_dom_weak", "rbx_reflection")
+WRITER_PANIC_DISCHARGED = {
+    ("rbx_binary::serializer::state::SerializerState::<'dom, 'db, W>::serialize_properties", "panic"): "the SharedString was registered in shared_string_ids when the value was collected (C01.sstr / C03.frame decide that every collected SharedString is registered before the PROP chunks are written)",
+}
+
+
+def _wild_arm_dead(prog, fn, node):
+    """the innermost `_`/binding arm holding `node` is dead iff the sibling arms (without guards) name every variant of
+    the matched enum"""
+    best = None
+    for m in core.walk_fn(fn):
+        if m.get("k") != "Match" or m.get("src") != "Normal":
+            continue
+        for arm in m["arms"]:
+            if arm["pat"].get("k") not in ("Wild", "Binding") or arm["pat"].get("sub"):
+                continue
+            if any(x is node for x in core.walk(arm["body"])):
+                best = (m, arm)      # walk order is outer-to-inner: keep the innermost
+    if best is None:
+        return None
+    m, arm = best
+    ty = (m["e"].get("aty") or m["e"].get("ty", "")).lstrip("&").replace("mut ", "").strip()
+    adt = prog.adts.get(ty.split("<")[0])
+    if adt is None or not adt.get("variants"):
+        return None
+    named = set()
+    for a in m["arms"]:
+        if a is arm or a.get("guard"):
+            continue
+        for alt in tables.pat_alts(a["pat"]):
+            if alt[0] in ("v", "ctor", "struct") and alt[1]:
+                named.add(vname(alt[1]))
+    missing = sorted({v["name"] for v in adt["variants"]} - named)
+    return ty.split("<")[0], missing
+
+
+def _accepted_variant_types(prog, fn, node):
+    """for a wildcard arm over `Variant` preceded by `<table>(value.ty())…?`: the VariantTypes for which the table
+    function returns Some — the only values that reach the match"""
+    for st in core.walk_lets(fn.body):
+        init = st.get("init")
+        if init is None or core.as_try(core.strip(init)) is None:
+            continue
+        for x in core.walk(init, into_closures=False):
+            if x.get("k") == "Call" and x["args"] and core.strip(x["args"][0]).get("k") == "MethodCall" and core.strip(x["args"][0])["m"] == "ty":
+                tf = prog.fns.get(core.callee(x) or "")
+                if tf is None or tf.body is None:
+                    continue
+                acc = set()
+                for m in core.walk_fn(tf):
+                    if m.get("k") == "Match" and m.get("src") == "Normal":
+                        for a in m["arms"]:
+                            b = core.strip(a["body"])
+                            if b.get("k") == "Call" and (core.callee(b) or "").endswith("Option::Some"):
+                                for alt in tables.pat_alts(a["pat"]):
+                                    if alt[0] in ("v", "ctor", "struct") and alt[1]:
+                                        acc.add(vname(alt[1]))
+                if acc:
+                    return core.callee(x), acc
+    return None
+
+
+def rule_writer_total(c, prog, R, fmt):
+    """the writer is a total function on the values the property quantifies over: no value makes it panic"""
+    from sa import flow
+    roots_rx, label, crates = (XML_ROOTS, "XML", WRITER_CRATES) if fmt == "xml" else (BIN_ROOTS, "binary", WRITER_CRATES)
+    c.rule(R, f"every `todo!` / `unimplemented!` / `unreachable!` / `panic!` in code reachable from the {label} encoder entry points is enumerated; it must sit in a wildcard arm that is dead because the sibling arms name every variant of the matched enum (computed from the enum's definition), or behind a table lookup that rejects every value the match has no arm for (computed), or be listed with the invariant another rule decides — otherwise some value of a supported type makes the writer abort instead of writing it or returning an error")
+    g = flow.CallGraph(prog)
+    roots = [f.path for f in prog.find_fns(roots_rx)]
+    if not roots:
+        raise core.AnchorMissing(f"no {label} encoder entry point matches {roots_rx}")
+    reach = g.reach(roots)
+    n = 0
+    for path in sorted(reach):
+        fn = prog.fns[path]
+        if fn.dk == "Closure" or fn.crate not in crates or fn.body is None:
+            continue
+        for s in flow.panic_sites(fn):
+            if not (s["kind"].startswith("macro:") and s["macro"] in ("todo", "unimplemented", "unreachable", "panic")):
+                continue
+            n += 1
+            inst = f"{fn.path}|{s['macro']}"
+            dead = _wild_arm_dead(prog, fn, s["node"])
+            if dead is not None and not dead[1]:
+                c.ok(R, inst)
+                continue
+            if dead is not None and dead[0].endswith("variant::Variant"):
+                acc = _accepted_variant_types(prog, fn, s["node"])
+                if acc is not None:
+                    left = sorted(set(dead[1]) & acc[1])
+                    if not left:
+                        c.ok(R, inst)
+                    else:
+                        c.violation(R, f"{fn.path}|{s['macro']}|{','.join(left)}", f"{fn.path}: `{core.short(acc[0])}` accepts {left} but the match that writes the value has no arm for {'them' if len(left) > 1 else 'it'}: such a value reaches `{s['macro']}!`", core.loc(s["node"]), instance=inst)
+                    continue
+            why = WRITER_PANIC_DISCHARGED.get((fn.path, s["macro"]))
+            if why:
+                c.ok(R, inst)
+                continue
+            miss = f" (no arm for {', '.join(dead[1])} of {core.short(dead[0])})" if dead else ""
+            pth = g.path_to(reach, fn.path)
+            c.violation(R, f"{fn.path}|{s['macro']}" + (f"|{','.join(dead[1])}" if dead else ""), f"{fn.path}: `{s['macro']}!` is reachable from the {label} writer{miss}: a DOM holding such a value makes the writer panic instead of writing it or returning an EncodeError; reachable via {' -> '.join(core.short(p) for p in pth[-4:])}", core.loc(s["node"]), instance=inst)
+    c.floor(R, n, 1, f"explicit panic macros reachable from the {label} encoder")
